@@ -1,18 +1,28 @@
 import OrsoVerif.Generated.Validate
+import OrsoVerif.Generated.ValidateFlow
 /-!
-# C05 — record validation and atomic append
+# C05 — record validation, atomic append, and one schema object used many times
 
-`orso/schema.py` `RelationSchema.validate` (lines 656–704) and `DataFrame.append`
-(`orso/dataframe.py`).  A value is abstracted to `none` (Python `None`) or `some cls`, the name of
-its class; "is an instance of the column type's class" is decided by the two generated tables
-(`ORSO_TO_PYTHON_MAP` from the source, `issubclass` measured on the interpreter).
+`orso/schema.py` `RelationSchema.validate` and `DataFrame.append` (`orso/dataframe.py`).
+
+A value is abstracted to `none` (Python `None`) or `some cls`, the name of its class; "is an instance
+of the column type's class" is decided by the two generated tables (`ORSO_TO_PYTHON_MAP` from the
+source, `issubclass` measured on the interpreter).
+
+The *control flow* is not written here: `validate` runs `Gen.ValidateFlow.top` (the order of the checks
+and how the function exits) around `Gen.ValidateFlow.columnRule` (the body of the per-column loop), and
+`append` interprets `Gen.ValidateFlow.appendSteps` (the statements of `DataFrame.append` in source
+order).  All three are regenerated from the working tree on every run.  `validateSpec` is the
+statement of the property; `Props/C05.lean` proves that the generated flow refines it.
 -/
 namespace Validate
+open Gen.ValidateFlow (Exit Step)
 
 structure Column where
   name : String
   type : Option String   -- `none` = untyped (`_MISSING_TYPE`)
   nullable : Bool
+  aliases : List String := []
   deriving Repr, DecidableEq
 
 abbrev Value := Option String          -- none = null, some cls = a value of class `cls`
@@ -22,6 +32,7 @@ inductive Outcome where
   | ok
   | excess (keys : List String)
   | invalid (missing nulls wrongType : List String)
+  | other                                -- TypeError / anything the statement does not speak about
   deriving Repr, DecidableEq
 
 def lookup (k : String) : Record → Option Value
@@ -40,9 +51,18 @@ def isInstance (cls ty : String) : Bool :=
 
 def names (s : List Column) : List String := s.map (·.name)
 
-/-- Keys of the record that are not schema columns (schema.py:675). -/
+/-- `FlatColumn.all_names` -/
+def allNames (c : Column) : List String := c.aliases ++ [c.name]
+
+/-- What the record's keys are compared with (schema.py, the right operand of the set difference). -/
+def knownKeys (s : List Column) : List String :=
+  if Gen.ValidateFlow.excessAgainst = "all_names" then s.flatMap allNames else names s
+
+/-- Keys of the record that are not known (schema.py `extra_fields`). -/
 def excessKeys (s : List Column) (r : Record) : List String :=
-  (r.map (·.1)).filter fun k => !decide (k ∈ names s)
+  (r.map (·.1)).filter fun k => !decide (k ∈ knownKeys s)
+
+/-! ## the statement's three per-column rules -/
 
 def isMissing (r : Record) (c : Column) : Bool := (lookup c.name r).isNone
 
@@ -56,27 +76,96 @@ def isWrongType (r : Record) (c : Column) : Bool :=
   | some (some cls), some ty => !isInstance cls ty
   | _, _ => false
 
-/-- schema.py:656-704. The excess-key check comes first; the other three rules are collected. -/
-def validate (s : List Column) (r : Record) : Outcome :=
-  if excessKeys s r ≠ [] then .excess (excessKeys s r)
+/-- Keys of the record that are not column *names*. -/
+def excessNames (s : List Column) (r : Record) : List String :=
+  (r.map (·.1)).filter fun k => !decide (k ∈ names s)
+
+/-- **The statement**: excess keys (against the column *names*) are reported first and alone; otherwise
+the three rules are collected over the columns in order. -/
+def validateSpec (s : List Column) (r : Record) : Outcome :=
+  if excessNames s r ≠ [] then .excess (excessNames s r)
   else
     let missing := (s.filter (isMissing r)).map (·.name)
     let nulls := (s.filter (isNullViolation r)).map (·.name)
     let wrong := (s.filter (isWrongType r)).map (·.name)
     if missing = [] ∧ nulls = [] ∧ wrong = [] then .ok else .invalid missing nulls wrong
 
+def keys (r : Record) : List String := r.map (·.1)
+
+/-- The four clauses of the statement. -/
+def Conforms (s : List Column) (r : Record) : Prop :=
+  (∀ k ∈ keys r, k ∈ names s)
+  ∧ (∀ c ∈ s, lookup c.name r ≠ none)
+  ∧ (∀ c ∈ s, lookup c.name r = some none → c.nullable = true)
+  ∧ (∀ c ∈ s, ∀ cls ty, lookup c.name r = some (some cls) → c.type = some ty → isInstance cls ty = true)
+
+/-! ## the code: generated flow around the atoms -/
+
+def kMissing : String := "Column in Schema Not Found in Record"
+def kNull : String := "Column not Nullable"
+def kWrong : String := "Incorrect Type"
+
+def atomPresent (r : Record) (c : Column) : Bool := (lookup c.name r).isSome
+def atomIsNone (r : Record) (c : Column) : Bool := lookup c.name r == some none
+def atomTyped (c : Column) : Bool := c.type.isSome
+def atomInst (r : Record) (c : Column) : Bool :=
+  match lookup c.name r, c.type with
+  | some (some cls), some ty => isInstance cls ty
+  | _, _ => false
+
+/-- The error-dict keys column `c` is appended to: the generated loop body on the five atoms. -/
+def ruleOf (r : Record) (c : Column) : List String :=
+  Gen.ValidateFlow.columnRule (atomPresent r c) (atomIsNone r c) c.nullable (atomTyped c) (atomInst r c)
+
+/-- `errors[key]` after the loop. -/
+def collect (key : String) (s : List Column) (r : Record) : List String :=
+  (s.filter fun c => decide (key ∈ ruleOf r c)).map (·.name)
+
+/-- `RelationSchema.validate`, as the working tree has it. -/
+def validate (s : List Column) (r : Record) : Outcome :=
+  match Gen.ValidateFlow.top false (decide (excessKeys s r ≠ [])) (s.any fun c => decide (ruleOf r c ≠ [])) with
+  | .excess => .excess (excessKeys s r)
+  | .invalid => .invalid (collect kMissing s r) (collect kNull s r) (collect kWrong s r)
+  | .ok => .ok
+  | _ => .other
+
+/-! ## append -/
+
 /-- The row stored for an accepted record: values in column order. -/
 def rowOf (s : List Column) (r : Record) : List Value := s.map fun c => (lookup c.name r).getD none
 
-/-- `DataFrame.append` on a schema-bound frame: validate, then store; a rejected record leaves the rows alone. -/
-def append (s : List Column) (rows : List (List Value)) (r : Record) : List (List Value) × Outcome :=
-  match validate s r with
-  | .ok => (rows ++ [rowOf s r], .ok)
-  | e => (rows, e)
+inductive AppendResult where
+  | ok
+  | rejected (o : Outcome)   -- validation raised
+  | unsizable                -- `Row.nbytes` raised (integer beyond 64 bits, record over 16 MiB)
+  | malformed                -- a row used before it was built
+  deriving Repr, DecidableEq
 
-def appends (s : List Column) (rows : List (List Value)) : List Record → List (List Value)
+/-- Interpreter for the statements of `DataFrame.append`: `validate` and `size` can raise, which ends the
+call with the rows as they are at that moment. -/
+def runSteps (s : List Column) (r : Record) (sizable : Bool) :
+    List Step → List (List Value) → Option (List Value) → List (List Value) × AppendResult
+  | [], rows, _ => (rows, .ok)
+  | .validate :: rest, rows, row =>
+    if validate s r = .ok then runSteps s r sizable rest rows row else (rows, .rejected (validate s r))
+  | .build :: rest, rows, _ => runSteps s r sizable rest rows (some (rowOf s r))
+  | .size :: rest, rows, some row => if sizable then runSteps s r sizable rest rows (some row) else (rows, .unsizable)
+  | .size :: _, rows, none => (rows, .malformed)
+  | .store :: rest, rows, some row => runSteps s r sizable rest (rows ++ [row]) (some row)
+  | .store :: _, rows, none => (rows, .malformed)
+  | .coerce :: rest, rows, row => runSteps s r sizable rest rows row
+  | .materialize :: rest, rows, row => runSteps s r sizable rest rows row
+  | .count :: rest, rows, row => runSteps s r sizable rest rows row
+  | .cursor :: rest, rows, row => runSteps s r sizable rest rows row
+
+/-- `DataFrame.append` on a schema-bound frame. `sizable` = the row can be serialised. -/
+def append (s : List Column) (rows : List (List Value)) (r : Record) (sizable : Bool) :
+    List (List Value) × AppendResult :=
+  runSteps s r sizable Gen.ValidateFlow.appendSteps rows none
+
+def appends (s : List Column) (rows : List (List Value)) : List (Record × Bool) → List (List Value)
   | [] => rows
-  | r :: rs => appends s (append s rows r).1 rs
+  | (r, z) :: rs => appends s (append s rows r z).1 rs
 
 /-- A stored row conforms: as wide as the schema, nulls only where allowed, classes right. -/
 def rowConforms (s : List Column) (row : List Value) : Bool :=
@@ -86,5 +175,53 @@ def rowConforms (s : List Column) (row : List Value) : Bool :=
     | none, _ => c.nullable
     | some cls, some ty => isInstance cls ty
     | some _, none => true
+
+/-! ## one schema object, used many times -/
+
+/-- What a program can do with one `RelationSchema` object. -/
+inductive Op where
+  | validate (r : Record)
+  | addCol (c : Column)                 -- `schema.columns.append(c)`
+  | insertCol (i : Nat) (c : Column)    -- `schema.columns.insert(i, c)`
+  | delCol (i : Nat)                    -- `del schema.columns[i]`
+  | popCol (n : String)                 -- `schema.pop_column(n)`
+  | replaceCols (cs : List Column)      -- `schema.columns = [...]`
+  | setCol (i : Nat) (c : Column)       -- in-place change of a column's name / type / nullable / aliases
+  | frame (init : List (List Value)) (rs : List (Record × Bool))   -- a frame bound to the schema as it is now
+  deriving Repr
+
+inductive Out where
+  | outcome (o : Outcome)
+  | frame (rows : List (List Value)) (results : List AppendResult)
+  deriving Repr, DecidableEq
+
+/-- The column list after an operation. -/
+def mutate (s : List Column) : Op → List Column
+  | .validate _ => s
+  | .addCol c => s ++ [c]
+  | .insertCol i c => s.insertIdx i c
+  | .delCol i => s.eraseIdx i
+  | .popCol n => s.eraseP (fun c => c.name == n)
+  | .replaceCols cs => cs
+  | .setCol i c => s.set i c
+  | .frame _ _ => s
+
+def appendResults (s : List Column) (rows : List (List Value)) : List (Record × Bool) → List AppendResult
+  | [] => []
+  | (r, z) :: rs => (append s rows r z).2 :: appendResults s (append s rows r z).1 rs
+
+/-- What an operation lets the program observe, given the column list at that moment. -/
+def observe (s : List Column) : Op → Option Out
+  | .validate r => some (.outcome (validate s r))
+  | .frame init rs => some (.frame (appends s init rs) (appendResults s init rs))
+  | _ => none
+
+def exec (s : List Column) : List Op → List Column
+  | [] => s
+  | op :: ops => exec (mutate s op) ops
+
+def run (s : List Column) : List Op → List Out
+  | [] => []
+  | op :: ops => (observe s op).toList ++ run (mutate s op) ops
 
 end Validate
